@@ -20,7 +20,7 @@ def main():
     a = sys.argv[1:]
     src = a[0].rstrip('/')
     mid = os.path.basename(src)
-    checks = None; seeds = ['1', '2']; thorough = False; confirm = True; suite = True
+    checks = None; seeds = ['1', '2']; thorough = False; confirm = True; suite = True; sens = True
     i = 1
     while i < len(a):
         if a[i] == '--checks': checks = a[i+1].split(','); i += 2
@@ -28,6 +28,7 @@ def main():
         elif a[i] == '--thorough': thorough = True; i += 1
         elif a[i] == '--no-confirm': confirm = False; i += 1
         elif a[i] == '--no-suite': suite = False; i += 1
+        elif a[i] == '--no-sens': sens = False; i += 1
         else: i += 1
     dst = f'{V}/seeded/{mid}'
     os.makedirs(dst, exist_ok=True)
@@ -82,12 +83,33 @@ def main():
             m = re.search(r'stable_pass total (\d+) passed now (\d+)', out)
             conf['suite'] = m.group(0) if m else 'unparsed: ' + out[-300:]
             conf['suite_not_passing'] = re.findall(r'NOT PASSING: (\S+)', out)[:10]
+            # a stable test that did not pass may be load-induced flakiness: re-run each alone, three times
+            retry = {}
+            for t in conf['suite_not_passing']:
+                name = t.split('::')[-1]
+                ok = 0
+                for _ in range(3):
+                    rc2, out2 = sh(['cargo', 'nextest', 'run', '--workspace', '--offline', '-E', f'test(~{name})'], cwd=wt, env=env, timeout=1800)
+                    ok += 1 if rc2 == 0 and ' passed' in out2 else 0
+                retry[t] = f'{ok}/3 passed alone'
+            conf['suite_retry'] = retry
         sh(['git', '-C', '/repo', 'worktree', 'remove', '--force', wt])
         shutil.rmtree(wt, ignore_errors=True)
+        try:
+            latest = json.load(open(os.path.join(dst, 'meta.json')))
+            if 'author' in latest: meta = latest
+        except Exception:
+            pass
         meta['confirm'] = conf
         json.dump(meta, open(os.path.join(dst, 'meta.json'), 'w'), indent=1)
         print(mid, 'confirm:', json.dumps(conf))
     # ---------------- B. sensitivity
+    if not sens:
+        return
+    try:
+        meta = json.load(open(os.path.join(dst, 'meta.json')))
+    except Exception:
+        pass
     rc, out = sh(['git', '-C', '/repo', 'status', '--porcelain', '--untracked-files=no'])
     if out.strip():
         print('REFUSING: /repo working tree is not clean:', out); sys.exit(3)
